@@ -34,6 +34,29 @@ CHECKS = {
         note=(TB_COMMON + "Same modelling assumptions as C01. The non-idempotence of legacy quantized_bits with a constant alpha != 1 is "
               "a recorded known finding (refuted lemma with witness)."),
         technique="Coq proof over an exact rational model + bit-exact differential correspondence (vm_compute) with the TF implementation"),
+    "C16": dict(
+        category="proof",
+        text=("Coq theorems (Properties/C16.v), unbounded in bits/integer bits: fixed x fixed, power-of-two x fixed (shifter), "
+              "ternary/binary x fixed (mux), binary-0/1 x fixed (and gate) products are representable in the reported type except for "
+              "most-negative x most-negative; po2 x po2 exponent sums fit for equal signedness; the 6x6 implementation-kind table equals an "
+              "independent kind specification (finite). The executable transcription of the rules (QTools/Ops.v) is compared field by field "
+              "with MultiplierFactory on every ordered operand pair of the lattice, and every value pair of <=4/5-bit operand types is "
+              "brute-forced inside Coq. Two table entries are refuted with witnesses (known findings)."),
+        design_ref="DESIGN.md section 5 C16, section 10",
+        note=(TB_COMMON + "Value sets of the qtools types (QTools/Types.v) are my reading of the type fields: fixed = code*2^-(bits-sign-int_bits) "
+              "two's complement; po2 = +-2^e within get_exp's range capped by max_value, plus 0 for gate outputs; ternary/binary by kind. "
+              "np.log2/math.ceil are modelled by exact integer functions."),
+        technique="Coq proof over a transcription of the type rules + exhaustive differential correspondence + in-Coq brute force (vm_compute)"),
+    "C17": dict(
+        category="proof",
+        text=("Coq theorems (Properties/C17.v): for every N >= 1 the fixed-point accumulator holds any sum of N (+bias) multiplier-output "
+              "codes (induction over the list); the fixed-point adder holds the sum of any two operand values, keeps the finest fraction and "
+              "adds one integer bit; widening an operand never narrows adder/accumulator types. po2->fixed conversion is proved below the top "
+              "exponent and refuted at it; merge Add/Maximum are refuted with witnesses (known findings). Rules compared field by field with "
+              "AccumulatorFactory / IAdder / MergeFactory over the operand lattice, kernel shapes up to N=2^20."),
+        design_ref="DESIGN.md section 5 C17, section 10",
+        note=(TB_COMMON + "Same value-set reading as C16. np.ceil(np.log2(n)) is compared with Z.log2_up at 2^k, 2^k+-1 (k<=20) on every run."),
+        technique="Coq proof (induction over operand lists) + exhaustive differential correspondence + in-Coq brute force"),
 }
 
 NOT_YET = "check not built yet in this development (design in DESIGN.md section 5); not a claim that proof is inapplicable"
